@@ -397,7 +397,15 @@ impl<'a> AliasLexer<'a> {
         self.trim_whitespace();
 
         match self.get_numeric() {
-            Some(num) => Ok(Some(AliasToken::new(tkn_kind, num.value, AliasPosition::new(self.kind, self.line, start, self.pos)))),
+            Some(num) => {
+                // as in rules: zeros carry no tone, and a tone has at most four digits
+                let value = num.value.replace('0', "");
+                if value.len() > 4 {
+                    return Err(AliasSyntaxError::ToneTooBig(self.kind, self.line, num.position.start))
+                }
+                let value = if value.is_empty() { String::from("0") } else { value };
+                Ok(Some(AliasToken::new(tkn_kind, value, AliasPosition::new(self.kind, self.line, start, self.pos))))
+            },
             _ => Err(AliasSyntaxError::ExpectedNumber(self.curr_char(), self.kind, self.line, self.pos))
 
         }
